@@ -142,6 +142,8 @@ class Enc:
         self.encoded = False
         self.order = []         # ('mod', r, terms, const) | ('mul', t, a, b) in creation order
         self.linrows = []       # purely linear gate rows: (const, {atom: symmetric coef})
+        self.linrow_lines = {}  # row index -> (start, end) range of self.lines it emitted
+        self.occ = {}           # atom -> number of constraints (gates, lookup inputs) mentioning it
         self.skip_gate = None   # predicate(gate dict) -> True: leave this gate row to a specialised engine
         self.skipped = []
         self.opaque_products = False   # exact-small products: state only their range (monomial mode for
@@ -404,6 +406,16 @@ class Enc:
         const, lin, quad, high = self.split_poly(poly)
         if not quad and not high:
             self.linrows.append((sym(const, P), {n: sym(c, P) for n, c in lin.items() if c % P}))
+            self._cur_linrow = len(self.linrows) - 1
+            self._cur_start = len(self.lines)
+        else:
+            self._cur_linrow = None
+        self._constraint_body(const, lin, quad, high, monomial_mode)
+        if self._cur_linrow is not None:
+            self.linrow_lines[self._cur_linrow] = (self._cur_start, len(self.lines))
+
+    def _constraint_body(self, const, lin, quad, high, monomial_mode):
+        P = self.P
         terms = []
         for k, syms in high:
             # nested products in canonical order
@@ -601,6 +613,19 @@ class Enc:
                 self.bool_atoms.add(b)
             else:
                 rest.append(g)
+        for g in rest:
+            const, lin, quad, high = self.split_poly(g["poly"])
+            seen = set(lin) | {a for _, a, b in quad} | {b for _, a, b in quad} | {a for _, syms in high for a in syms}
+            for a in seen:
+                self.occ[a] = self.occ.get(a, 0) + 1
+        for lk in d["lookups"]:
+            for inp in lk["inputs"]:
+                seen = set()
+                for poly in inp["exprs"]:
+                    const, lin, quad, high = self.split_poly(poly)
+                    seen |= set(lin)
+                for a in seen:
+                    self.occ[a] = self.occ.get(a, 0) + 1
         self.infer_bounds([g["poly"] for g in rest])
         for g in rest:
             self.constraint(g["poly"], monomial_mode)
@@ -709,26 +734,43 @@ class Enc:
     def flat_lemmas(self):
         """Running-remainder chains (x = d0 + 2 d1 + ... + y1, y1 = 16 d4 + ... + y2, ...) are linear rows
         that each hold mod p. Their composition x == sum coef_i digit_i (mod p) is a consequence of the
-        system; state it directly (as an integer equation when the digit bounds exclude wrap-around) so
-        the solver does not have to case-split one quotient per row."""
+        system; state it directly (as an integer equation when the digit bounds exclude wrap-around).
+        When the intermediate remainders are private to the chain (they occur in no other constraint and
+        are not instance cells) the individual rows are dropped in favour of the composed equation:
+        dropping hypotheses can only make the implication Sys => Spec harder to prove, never unsound, and
+        the composed equation is equivalent to the chain with the private remainders eliminated."""
         P = self.P
         heads = set()
         for const, lin in self.linrows:
             for a, c in lin.items():
                 if c in (1, -1):
                     heads.add(a)
+        io_atoms = set()
+        for c in self.s.ins + self.s.outs:
+            o = self.v(c)
+            if not isinstance(o, int):
+                io_atoms.add(o)
+        done_rows = set()
         for x in sorted(heads):
-            dg = self.flatten_digits(x)
-            if not dg or len(dg) < 2:
+            used, elim = set(), set()
+            dg = self.flatten_digits(x, used=used, elim=elim)
+            if not dg or len(dg) < 2 or len(used) < 2:
                 continue
-            # only worth stating when a chain was followed (some row head other than x was eliminated)
-            direct = any(set(a for _, a in dg) <= set(lin) for _, lin in self.linrows if x in lin)
-            if direct:
+            if used & done_rows:
                 continue
             self.modeq([(c, a) for c, a in dg] + [(-1, x)], 0)
+            private = all(self.occ.get(a, 0) == 2 and a not in io_atoms for a in elim)
+            if private and len(used) >= 3:
+                for ri in used:
+                    if ri in self.linrow_lines:
+                        st, en = self.linrow_lines[ri]
+                        for li in range(st, en):
+                            if self.lines[li].startswith("(assert"):
+                                self.lines[li] = "; subsumed by composed chain: " + self.lines[li][:60]
+                done_rows |= used
 
     # ---- radix decompositions --------------------------------------------------------------------
-    def flatten_digits(self, x, max_digit_bound=1 << 64, depth=0, skip=None):
+    def flatten_digits(self, x, max_digit_bound=1 << 64, depth=0, skip=None, used=None, elim=None):
         """Try to express atom x as sum(coef_i * digit_i) using the purely linear rows of the system
         (following running-remainder chains). Returns [(coef, atom)] or None. Heuristic only: every use
         of the result is guarded by premises inside the solver."""
@@ -741,19 +783,29 @@ class Enc:
             if c not in (1, -1) or const != 0:
                 continue
             others = [(-cc * c, a) for a, cc in lin.items() if a != x]   # x = sum others
+            # weights above p/2 show up negative in symmetric form: accept them when they are powers of two
+            others = [((w + self.P) if (w <= 0 and ((w + self.P) & (w + self.P - 1)) == 0) else w, a) for w, a in others]
             if not others or any(cc <= 0 for cc, _ in others):
                 continue
             out, ok = [], True
+            u2, e2 = {ri}, set()
             for cc, a in others:
-                sub = self.flatten_digits(a, max_digit_bound, depth + 1, (skip or set()) | {ri})
+                su, se = set(), set()
+                sub = self.flatten_digits(a, max_digit_bound, depth + 1, (skip or set()) | {ri}, su, se)
                 if sub is not None and all(c2 > 0 for c2, _ in sub):
                     out += [(cc * c2, a2) for c2, a2 in sub]
+                    u2 |= su
+                    e2 |= se | {a}
                 elif self.bound(a) <= max_digit_bound:
                     out.append((cc, a))
                 else:
                     ok = False
                     break
             if ok:
+                if used is not None:
+                    used |= u2
+                if elim is not None:
+                    elim |= e2
                 return sorted(out)
         return None
 
